@@ -35,6 +35,7 @@ struct Field {
     std::string name; int w; int carrier;   // carrier = bits the setter's parameter can hold (0: getter only)
     bool bytes;                             // value is an octet string (addresses, opaque arrays)
     bool fixed;                             // selects the variant (message type ...): never varied
+    bool nonzero;                           // the all-zero value is a documented sentinel ("fill in at serialisation"): not offered
     std::function<void(PDU&, uint64_t)> set; std::function<uint64_t(PDU&)> get;
     std::function<void(PDU&, const Bytes&)> setb; std::function<Bytes(PDU&)> getb;
 };
@@ -43,10 +44,11 @@ static std::vector<Class> REG;
 static Class& cur() { return REG.back(); }
 static void cls(const char* n, bool raw_child, std::function<PDU*()> mk) { Class c; c.name = n; c.raw_child = raw_child; c.make = mk; REG.push_back(c); }
 static void addn(const char* n, int w, int carrier, std::function<void(PDU&, uint64_t)> s, std::function<uint64_t(PDU&)> g) {
-    Field f; f.name = n; f.w = w; f.carrier = carrier; f.bytes = false; f.fixed = false; f.set = s; f.get = g; cur().fields.push_back(f); }
+    Field f; f.name = n; f.w = w; f.carrier = carrier; f.bytes = false; f.fixed = false; f.nonzero = false; f.set = s; f.get = g; cur().fields.push_back(f); }
 static void addb(const char* n, int w, std::function<void(PDU&, const Bytes&)> s, std::function<Bytes(PDU&)> g) {
-    Field f; f.name = n; f.w = w; f.carrier = w; f.bytes = true; f.fixed = false; f.setb = s; f.getb = g; cur().fields.push_back(f); }
+    Field f; f.name = n; f.w = w; f.carrier = w; f.bytes = true; f.fixed = false; f.nonzero = false; f.setb = s; f.getb = g; cur().fields.push_back(f); }
 static void fix_last() { cur().fields.back().fixed = true; }
+static void nonzero_last() { cur().fields.back().nonzero = true; }
 
 template <class A> static Bytes addr_bytes(const A& a) { return Bytes(a.begin(), a.end()); }
 static Bytes v4_bytes(const IPv4Address& a) {       // through the text form: independent of the in-memory representation
@@ -63,6 +65,9 @@ static Bytes ptr_bytes(const uint8_t* p, size_t n) { return Bytes(p, p + n); }
 // small_uint<N> parameter: the small_uint is constructed from the raw integer inside the (try-guarded) setter call
 #define SU(NAME, W, N, M) NUM(NAME, W, small_uint<N>::repr_type, o.M(small_uint<N>(v)), o.M())
 #define EN(NAME, W, CT, E, M) NUM(NAME, W, CT, o.M((E)v), o.M())
+// enumeration parameter whose value range (C++11 [dcl.enum]/7: the smallest bit-field holding all enumerators) is CB bits:
+// a larger integer is not a value the parameter type can carry, so no out-of-range probe is offered
+#define ENB(NAME, W, CB, E, M) addn(NAME, W, CB, [](PDU& p, uint64_t x) { O_; o.M((E)x); }, [](PDU& p) -> uint64_t { O_; return (uint64_t)(o.M()); })
 #define BOOLF(NAME, M) addn(NAME, 1, 1, [](PDU& p, uint64_t x) { O_; o.M(x != 0); }, [](PDU& p) -> uint64_t { O_; return o.M() ? 1 : 0; })
 #define GETONLY(NAME, W, GETX) addn(NAME, W, 0, std::function<void(PDU&, uint64_t)>(), [](PDU& p) -> uint64_t { O_; return (uint64_t)(GETX); })
 #define V4(NAME, M) addb(NAME, 32, [](PDU& p, const Bytes& b) { O_; o.M(v4_from(b)); }, [](PDU& p) -> Bytes { O_; return v4_bytes(o.M()); })
@@ -97,8 +102,9 @@ static void icmp6_head(bool vary_type);
 static void build_registry() {
     { typedef IP T; cls("IP", true, []() -> PDU* { return new IP("10.0.0.1", "10.0.0.2"); });
       SU("version", 4, 4, version); GETONLY("ihl", 4, o.head_len()); U("tos", 8, uint8_t, tos); GETONLY("tot_len", 16, o.tot_len()); U("id", 16, uint16_t, id);
-      EN("flags", 3, uint8_t, IP::Flags, flags); SU("frag_off", 13, 13, fragment_offset); U("ttl", 8, uint8_t, ttl); U("protocol", 8, uint8_t, protocol);
-      GETONLY("checksum", 16, o.checksum()); V4("src", src_addr); V4("dst", dst_addr); }
+      ENB("flags", 3, 3, IP::Flags, flags); SU("frag_off", 13, 13, fragment_offset); U("ttl", 8, uint8_t, ttl); U("protocol", 8, uint8_t, protocol);
+      GETONLY("checksum", 16, o.checksum()); V4("src", src_addr); nonzero_last();   /* IP::prepare_for_serialize replaces a 0.0.0.0 source by the outgoing interface's address */
+      V4("dst", dst_addr); }
     { typedef IPv6 T; cls("IPv6", true, []() -> PDU* { return new IPv6("::1", "::2"); });
       SU("version", 4, 4, version); U("traffic_class", 8, uint8_t, traffic_class); SU("flow_label", 20, 20, flow_label);
       U("payload_length", 16, uint16_t, payload_length); U("next_header", 8, uint8_t, next_header); U("hop_limit", 8, uint8_t, hop_limit);
@@ -144,7 +150,7 @@ static void build_registry() {
       U("hw_addr_format", 16, uint16_t, hw_addr_format); U("prot_addr_format", 16, uint16_t, prot_addr_format); U("hw_addr_length", 8, uint8_t, hw_addr_length);
       U("prot_addr_length", 8, uint8_t, prot_addr_length); EN("opcode", 16, uint16_t, ARP::Flags, opcode); HW("sender_hw_addr", 6, sender_hw_addr);
       V4("sender_ip_addr", sender_ip_addr); HW("target_hw_addr", 6, target_hw_addr); V4("target_ip_addr", target_ip_addr); }
-    { typedef EthernetII T; cls("EthernetII", false, []() -> PDU* { return new EthernetII(); });
+    { typedef EthernetII T; cls("EthernetII", true, []() -> PDU* { return new EthernetII(); });
       HW("dst_addr", 6, dst_addr); HW("src_addr", 6, src_addr); U("payload_type", 16, uint16_t, payload_type); }
     { typedef Dot3 T; cls("Dot3", false, []() -> PDU* { return new Dot3(); });
       HW("dst_addr", 6, dst_addr); HW("src_addr", 6, src_addr); U("length", 16, uint16_t, length); }
@@ -153,7 +159,7 @@ static void build_registry() {
     { typedef MPLS T; cls("MPLS", false, []() -> PDU* { return new MPLS(); });
       SU("label", 20, 20, label); SU("experimental", 3, 3, experimental); SU("bottom_of_stack", 1, 1, bottom_of_stack); U("ttl", 8, uint8_t, ttl); }
     { typedef DNS T; cls("DNS", false, []() -> PDU* { return new DNS(); });
-      U("id", 16, uint16_t, id); EN("qr", 1, uint8_t, DNS::QRType, type); U("opcode", 4, uint8_t, opcode); U("aa", 1, uint8_t, authoritative_answer);
+      U("id", 16, uint16_t, id); ENB("qr", 1, 1, DNS::QRType, type); U("opcode", 4, uint8_t, opcode); U("aa", 1, uint8_t, authoritative_answer);
       U("tc", 1, uint8_t, truncated); U("rd", 1, uint8_t, recursion_desired); U("ra", 1, uint8_t, recursion_available); U("z", 1, uint8_t, z);
       U("ad", 1, uint8_t, authenticated_data); U("cd", 1, uint8_t, checking_disabled); U("rcode", 4, uint8_t, rcode);
       GETONLY("qdcount", 16, o.questions_count()); GETONLY("ancount", 16, o.answers_count()); GETONLY("nscount", 16, o.authority_count()); GETONLY("arcount", 16, o.additional_count()); }
@@ -166,7 +172,7 @@ static void build_registry() {
       U("send_seq_number", 7, uint8_t, send_seq_number); U("receive_seq_number", 7, uint8_t, receive_seq_number); BOOLF("poll_final", poll_final); }
     { typedef LLC T; cls("LLC_super", false, []() -> PDU* { LLC* l = new LLC(); l->type(LLC::SUPERVISORY); return l; });
       U("dsap", 8, uint8_t, dsap); BOOLF("group", group); U("ssap", 8, uint8_t, ssap); BOOLF("response", response);
-      EN("supervisory_function", 2, uint8_t, LLC::SupervisoryFunctions, supervisory_function); U("receive_seq_number", 7, uint8_t, receive_seq_number); BOOLF("poll_final", poll_final); }
+      ENB("supervisory_function", 2, 2, LLC::SupervisoryFunctions, supervisory_function); U("receive_seq_number", 7, uint8_t, receive_seq_number); BOOLF("poll_final", poll_final); }
     { typedef LLC T; cls("LLC_unnumbered", false, []() -> PDU* { LLC* l = new LLC(); l->type(LLC::UNNUMBERED); return l; });
       U("dsap", 8, uint8_t, dsap); BOOLF("group", group); U("ssap", 8, uint8_t, ssap); BOOLF("response", response); BOOLF("poll_final", poll_final); }
     { typedef SLL T; cls("SLL", false, []() -> PDU* { return new SLL(); });
@@ -189,6 +195,11 @@ static void build_registry() {
       SU("marker_bit", 1, 1, marker_bit); SU("payload_type", 7, 7, payload_type); U("sequence_number", 16, uint16_t, sequence_number);
       U("timestamp", 32, uint32_t, timestamp); U("ssrc_id", 32, uint32_t, ssrc_id); }
     { typedef BootP T; cls("BootP", false, []() -> PDU* { return new BootP(); });
+      U("opcode", 8, uint8_t, opcode); U("htype", 8, uint8_t, htype); U("hlen", 8, uint8_t, hlen); U("hops", 8, uint8_t, hops); U("xid", 32, uint32_t, xid);
+      U("secs", 16, uint16_t, secs); U("padding", 16, uint16_t, padding); V4("ciaddr", ciaddr); V4("yiaddr", yiaddr); V4("siaddr", siaddr); V4("giaddr", giaddr);
+      addb("chaddr", 128, [](PDU& p, const Bytes& b) { O_; o.chaddr(hw_from<16>(b)); }, [](PDU& p) -> Bytes { O_; return addr_bytes(o.chaddr()); });
+      ARR("sname", 64, sname); ARR("file", 128, file); }
+    { typedef DHCP T; cls("DHCP", false, []() -> PDU* { return new DHCP(); });
       U("opcode", 8, uint8_t, opcode); U("htype", 8, uint8_t, htype); U("hlen", 8, uint8_t, hlen); U("hops", 8, uint8_t, hops); U("xid", 32, uint32_t, xid);
       U("secs", 16, uint16_t, secs); U("padding", 16, uint16_t, padding); V4("ciaddr", ciaddr); V4("yiaddr", yiaddr); V4("siaddr", siaddr); V4("giaddr", giaddr);
       addb("chaddr", 128, [](PDU& p, const Bytes& b) { O_; o.chaddr(hw_from<16>(b)); }, [](PDU& p) -> Bytes { O_; return addr_bytes(o.chaddr()); });
@@ -241,10 +252,13 @@ static void build_registry() {
     { typedef Dot11CFEnd T; cls("Dot11CFEnd", false, []() -> PDU* { return new Dot11CFEnd(); }); dot11_fc(); HW("target_addr", 6, target_addr); }
     { typedef Dot11EndCFAck T; cls("Dot11EndCFAck", false, []() -> PDU* { return new Dot11EndCFAck(); }); dot11_fc(); HW("target_addr", 6, target_addr); }
     { cls("Dot11Ack", false, []() -> PDU* { return new Dot11Ack(); }); dot11_fc(); }
+    { cls("Dot11Control", false, []() -> PDU* { return new Dot11Control(); }); dot11_fc(); }
+    { typedef Dot11ControlTA T; cls("Dot11ControlTA", false, []() -> PDU* { return new Dot11RTS(); }); dot11_fc(); HW("target_addr", 6, target_addr); }
+    { cls("Dot11ProbeRequest", false, []() -> PDU* { return new Dot11ProbeRequest(); }); dot11_fc(); dot11_seq<Dot11ProbeRequest>(); }
     { typedef Dot11BlockAckRequest T; cls("Dot11BlockAckRequest", false, []() -> PDU* { return new Dot11BlockAckRequest(); }); dot11_fc(); HW("target_addr", 6, target_addr);
       SU("bar_control", 4, 4, bar_control); SU("fragment_number", 4, 4, fragment_number); SU("start_sequence", 12, 12, start_sequence); }
     { typedef Dot11BlockAck T; cls("Dot11BlockAck", false, []() -> PDU* { return new Dot11BlockAck(); }); dot11_fc(); HW("target_addr", 6, target_addr);
-      SU("bar_control", 4, 4, bar_control); SU("fragment_number", 4, 4, fragment_number); SU("start_sequence", 12, 12, start_sequence); ARR("bitmap", 128, bitmap); }
+      SU("bar_control", 4, 4, bar_control); SU("fragment_number", 4, 4, fragment_number); SU("start_sequence", 12, 12, start_sequence); ARR("bitmap", 8, bitmap); }
 }
 static void icmp_head(bool vary_type) { typedef ICMP T;
     EN("type", 8, uint8_t, ICMP::Flags, type); if (!vary_type) fix_last(); U("code", 8, uint8_t, code); GETONLY("checksum", 16, o.checksum()); }
@@ -289,7 +303,8 @@ static Bytes be_bytes(uint64_t x, int nbytes) { Bytes b(nbytes); for (int i = 0;
 static uint64_t from_be(const Bytes& b) { uint64_t x = 0; for (size_t i = 0; i < b.size(); ++i) x = (x << 8) | b[i]; return x; }
 static uint64_t maxv(int w) { return w >= 64 ? ~0ull : ((1ull << w) - 1); }
 static Bytes rand_bytes(vh::Rng& r, int n) { Bytes b(n); int c = r.below(8); for (int i = 0; i < n; ++i) b[i] = c == 0 ? 0 : c == 1 ? 0xff : (uint8_t)r.below(256); return b; }
-static Bytes rand_value(const Field& f, vh::Rng& r) { if (f.bytes) return rand_bytes(r, f.w / 8); return be_bytes(r.next() & maxv(f.w), (f.w + 7) / 8); }
+static bool all_zero(const Bytes& b) { for (size_t i = 0; i < b.size(); ++i) if (b[i]) return false; return true; }
+static Bytes rand_value(const Field& f, vh::Rng& r) { if (f.bytes) { Bytes b = rand_bytes(r, f.w / 8); if (f.nonzero && all_zero(b)) b[0] = 10; return b; } return be_bytes(r.next() & maxv(f.w), (f.w + 7) / 8); }
 static std::vector<Bytes> boundary_values(const Field& f, vh::Rng& r, int nseed) {
     std::vector<Bytes> out; int nb = (f.w + 7) / 8;
     if (f.bytes) { Bytes z(nb, 0), o(nb, 0xff), a(nb), b(nb), c(nb); for (int i = 0; i < nb; ++i) { a[i] = 0xaa; b[i] = 0x55; c[i] = (uint8_t)(i + 1); }
@@ -361,6 +376,7 @@ static void scenario(const vh::Json& sc, vh::Out& out, vh::Rng& rng, const vh::A
     if (sweep || (!f->bytes && f->w <= exh)) { if (f->bytes || f->w > 16) { out.begin(cfg + ",\"swept\":0,\"logged\":0"); out.end(); return; }
         for (uint64_t x = 0; x <= maxv(f->w); ++x) vals.push_back(be_bytes(x, (f->w + 7) / 8)); }
     else vals = boundary_values(*f, rng, (int)nseed);
+    if (f->nonzero) { std::vector<Bytes> nz; for (size_t i = 0; i < vals.size(); ++i) if (!all_zero(vals[i])) nz.push_back(vals[i]); vals.swap(nz); }
     out.begin(cfg);
     std::unique_ptr<PDU> o; std::vector<Bytes> gb, ga; Bytes hb, ha; long logged = 0; size_t phase = rng.below((uint32_t)sample);
     for (size_t i = 0; i < vals.size(); ++i) {
